@@ -484,10 +484,12 @@ theorem sim_sort (re₁ re₂ : Reenter) (hre : ReSim c re₁ re₂) (hpost : It
     have hfL : ∀ b, keyFn = .obj b → Val.obj b ∈ s.stack.contents := fun b e => peekLast_mem (by rw [← hkf, e])
     have hI0 : IterI s.stack.contents a es s := ⟨rfl, fun _ => hit.symm, cap, es, hg, fun e he => he⟩
     w2h
+    refine w2_bind (w2_guardRows es hR (fun e he => hI0.vk haL he) fun hA0 => ?_)
+    have hI0' := hI0.of_eq (s' := { s with guards := rowGuards es ++ s.guards }) rfl rfl
     refine w2_bind (w2_mono (w2_forIn (fun (keyed : List (Val × Val × Val)) s' t' => ∃ K', Agree c K' s' t' ∧
         IterI s.stack.contents a es s' ∧
-        ∀ x ∈ keyed, (∀ b, x.1 = .obj b → b ∈ s'.guards) ∧ (x.2.1, x.2.2) ∈ es) es _ _ ?_ [] s t
-        ⟨_, hR, hI0, fun x hx => by cases hx⟩) fun keyed' keyed s1 t1 hq => ?_)
+        ∀ x ∈ keyed, (∀ b, x.1 = .obj b → b ∈ s'.guards) ∧ (x.2.1, x.2.2) ∈ es) es _ _ ?_ [] _ _
+        ⟨_, hA0, hI0', fun x hx => by cases hx⟩) fun keyed' keyed s1 t1 hq => ?_)
     · intro x hx keyed s' t' ⟨K', hA, hI, hkeyed⟩
       obtain ⟨k, v⟩ := x
       w2h
@@ -553,7 +555,8 @@ theorem sim_sort (re₁ re₂ : Reenter) (hre : ReSim c re₁ re₂) (hpost : It
           | int _ => exact w2_pure ⟨rfl, hA⟩
           | real _ => exact w2_pure ⟨rfl, hA⟩
         · obtain ⟨_, hA4⟩ := hq4
-          refine w2_bind (w2_dropGuard' _ hA4 fun s5 t5 _ hA5 => ?_)
+          refine w2_bind (w2_unguardRows es hA4 fun hA4' => ?_)
+          refine w2_bind (w2_dropGuard' _ hA4' fun s5 t5 _ hA5 => ?_)
           exact w2_ret hA5 (VK.obj hro)
 
 end sort
@@ -569,6 +572,7 @@ def mmBody (reenter : Reenter) (isMin : Bool) (h : Heap) : M Val := do
       match es with
       | [] => return .nil
       | (k0, v0) :: rest => do
+        guardRows es
         push v0; push k0
         let mut best ← reenter keyFn
         guardVal best
@@ -596,6 +600,7 @@ def mmBody (reenter : Reenter) (isMin : Bool) (h : Heap) : M Val := do
         dropGuard vs
         dropGuard row
         unguardVal best
+        unguardRows es
         return .obj row
 
 section mm
@@ -620,7 +625,9 @@ theorem mm_sim (re₁ re₂ : Reenter) (hre : ReSim c re₁ re₂) (hpost : Iter
     | cons e0 rest =>
       obtain ⟨k0, v0⟩ := e0
       dsimp only
-      refine w2_iterCall hre hpost haL hfL hR hI0 List.mem_cons_self fun best s1 t1 K1 hA1 hbest hI1 hgd1 => ?_
+      refine w2_bind (w2_guardRows _ hR (fun e he => hI0.vk haL he) fun hA0 => ?_)
+      have hI0' := hI0.of_eq (s' := { s with guards := rowGuards ((k0, v0) :: rest) ++ s.guards }) rfl rfl
+      refine w2_iterCall hre hpost haL hfL hA0 hI0' List.mem_cons_self fun best s1 t1 K1 hA1 hbest hI1 hgd1 => ?_
       refine w2_bind (w2_guardVal best hA1 hbest fun hA2 => ?_)
       have hI2 := hI1.of_eq (s' := { s1 with guards := guardOf best ++ s1.guards }) rfl rfl
       have hgb2 : ∀ b, best = .obj b → b ∈ ({ s1 with guards := guardOf best ++ s1.guards } : VmState).guards :=
@@ -697,7 +704,8 @@ theorem mm_sim (re₁ re₂ : Reenter) (hre : ReSim c re₁ re₂) (hpost : Iter
         refine w2_bind (w2_dropGuard' _ hA9 fun s10 t10 _ hA10 => ?_)
         refine w2_bind (w2_dropGuard' _ hA10 fun s11 t11 _ hA11 => ?_)
         refine w2_bind (w2_unguardVal bst hA11 fun hA12 => ?_)
-        exact w2_ret hA12 (VK.obj hr9)
+        refine w2_bind (w2_unguardRows _ hA12 fun hA13 => ?_)
+        exact w2_ret hA13 (VK.obj hr9)
 
 theorem sim_min (re₁ re₂ : Reenter) (hre : ReSim c re₁ re₂) (hpost : IterPost re₁) (h : Agree c K s t) :
     W2 c (callNativeBody re₁ "__min") (callNativeBody re₂ "__min") (QNat c) s t := by
